@@ -20,6 +20,10 @@ JUNK = [('blank', b''), ('tab', b'ab\tcd'), ('nel', 'ab\u0085cd'), ('ls', 'ab\u2
         ('undecodable', {'utf-8': b'ab\xff\xfecd', 'cp1251': b'ab\x98cd'}), ('broken_hex', b'$HEX[4g]'), ('odd_hex', b'$HEX[414]'),
         # well-formed hex whose bytes are not text in the file's encoding: cut inside a multi-byte character, a lone continuation byte, an invalid byte
         ('hex_cut_multibyte', {'utf-8': b'$HEX[636166c3]'}), ('hex_lone_continuation', {'utf-8': b'$HEX[a9616263]'}),
+        # well-formed hex that decodes to something no plain line may carry either (empty password, tab, control character, line break characters):
+        # skipped like its plain twin, and not an encoding error
+        ('hexed_empty', b'$HEX[]'), ('hexed_tab', b'$HEX[61620963]'), ('hexed_bell', b'$HEX[61076263]'), ('hexed_lf', b'$HEX[6162630a]'),
+        ('hexed_crlf', b'$HEX[6162630d0a]'), ('hexed_ls', {'utf-8': b'$HEX[6162e280a863]'}), ('hexed_nel', {'utf-8': b'$HEX[6162c285]'}),
         ('hex_invalid_byte', {'utf-8': b'$HEX[ff]', 'cp1251': b'$HEX[6198]'}), ('hex_cut_4byte', {'utf-8': b'$HEX[6162f09f98]'})] + \
        [('c0_%02x' % c, b'ab' + bytes([c]) + b'cd') for c in range(0, 0x20) if c not in (0x0a, 0x0d, 0x09)]
 # the same characters as the first / the last character of the line and as the whole line: a validity test phrased as "does this text
